@@ -380,6 +380,7 @@ static int _GD_Change(DIRFILE *D, const char *field_code, const gd_entry_t *N,
       if (flags) {
         ssize_t nread, nwrote;
         off64_t ns_out, nf;
+        size_t bufsize;
         void *buffer1;
         void *buffer2;
         struct encoding_t *enc;
@@ -395,6 +396,17 @@ static int _GD_Change(DIRFILE *D, const char *field_code, const gd_entry_t *N,
         nf = GD_BUFFER_SIZE / gd_max_(E->e->u.raw.size,
             GD_SIZE(Q.EN(raw,data_type))) / gd_max_(E->EN(raw,spf),
             Q.EN(raw,spf));
+
+        /* a frame larger than the default buffer: convert one frame at a
+         * time in buffers large enough to hold it (with nf == 0 nothing would
+         * be copied and the data file would be replaced by an empty one) */
+        bufsize = GD_BUFFER_SIZE;
+        if (nf == 0) {
+          nf = 1;
+          bufsize = (size_t)gd_max_(E->e->u.raw.size,
+              GD_SIZE(Q.EN(raw,data_type))) * gd_max_(E->EN(raw,spf),
+              Q.EN(raw,spf));
+        }
 
         if (D->fragment[E->fragment_index].protection & GD_PROTECT_DATA)
           _GD_SetError(D, GD_E_PROTECTED, GD_E_PROTECTED_DATA, NULL, 0,
@@ -433,8 +445,8 @@ static int _GD_Change(DIRFILE *D, const char *field_code, const gd_entry_t *N,
           break;
         }
 
-        buffer1 = _GD_Malloc(D, GD_BUFFER_SIZE);
-        buffer2 = _GD_Malloc(D, GD_BUFFER_SIZE);
+        buffer1 = _GD_Malloc(D, bufsize);
+        buffer2 = _GD_Malloc(D, bufsize);
 
         if (D->error) {
           free(buffer1);
